@@ -81,7 +81,11 @@ def step (s : St) (line : String) : St × String :=
     | some b =>
       if o.nat "h" > s.prod.store.height then (s, "no-such-block") else
       let before := s.full.store
-      let (n', ws) := Sync.onData s.full { b.data with txs := o.list "txs" }
+      -- `same=1`: the genuine transactions (hence the genuine commitment) under a wrong time
+      let junk : Data := if o.nat "same" = 1
+        then { b.data with metadata := b.data.metadata.map fun m => { m with time := m.time + 1 } }
+        else { b.data with txs := o.list "txs" }
+      let (n', ws) := Sync.onData s.full junk
       ({ s with full := n', before := before, ws := ws }, observe n' ws ws)
   | "restart" =>
     if !s.ok then (s, "dead") else
